@@ -1,6 +1,6 @@
 (* Proofs_Bloom.v — lemmas about Model_Bloom (property C26). stdlib only. *)
 From Coq Require Import Permutation.
-From Goloop Require Import lib.Bytes Model_Bloom.
+From Goloop Require Import lib.Bytes Model_Bloom Model_Lzw Proofs_Lzw.
 From Coq Require Import ZifyBool ZifyN ZifyNat.
 Open Scope N_scope.
 
@@ -410,6 +410,11 @@ Section WithCodec.
 End WithCodec.
 
 (* ---------- statements packaged for Prop_C26 ---------- *)
+
+(* the codec of common.Compress / common.Decompress (C25) *)
+Lemma compress_transparent_lzw b :
+  of_compressed Model_Lzw.decompress (compressed_bytes Model_Lzw.compress b) = Some b.
+Proof. exact (compress_transparent _ _ lzw_roundtrip b). Qed.
 
 Lemma merge_comm_assoc_idem a b c :
   merge a b = merge b a /\ merge (merge a b) c = merge a (merge b c) /\ merge a a = a.
